@@ -251,7 +251,7 @@ def detLine (max : Nat) (evs : List DEv) : String :=
 
 /-! free mode: the sequential specification, worker by worker -/
 
-def specOne (s : Plain) (txt : String) : Option (Plain × String) :=
+def specOne1 (s : Plain) (txt : String) : Option (Plain × String) :=
   match parseFg 0 txt with
   | none => none
   | some e =>
@@ -261,6 +261,33 @@ def specOne (s : Plain) (txt : String) : Option (Plain × String) :=
       | Out.snap _ => "save"
       | Out.done _ => "c"
       | Out.failed => "other")
+
+/-- run-length encoding of a result list: `r*k/r2*k2/...` -/
+def rleGo : List String → Option (String × Nat) → List String → List String
+  | [], none, acc => acc.reverse
+  | [], some (r, k), acc => ((r ++ "*" ++ toString k) :: acc).reverse
+  | x :: xs, none, acc => rleGo xs (some (x, 1)) acc
+  | x :: xs, some (r, k), acc =>
+    if x == r then rleGo xs (some (r, k + 1)) acc
+    else rleGo xs (some (x, 1)) ((r ++ "*" ++ toString k) :: acc)
+
+def specRep (txt : String) : Nat → Plain → List String → Option (Plain × List String)
+  | 0, s, acc => some (s, acc.reverse)
+  | n + 1, s, acc =>
+    match specOne1 s txt with
+    | none => none
+    | some (s', o) => specRep txt n s' (o :: acc)
+
+/-- `rep,<n>,<op>`: the op n times in a row -/
+def specOne (s : Plain) (txt : String) : Option (Plain × String) :=
+  match txt.splitOn "," with
+  | "rep" :: n :: x :: xs =>
+    (match n.toNat? with
+     | some (k + 1) =>
+       if x == "rep" || x == "save" then none else
+       (specRep (",".intercalate (x :: xs)) (k + 1) s []).map (fun r => (r.1, "/".intercalate (rleGo r.2 none [])))
+     | _ => none)
+  | _ => specOne1 s txt
 
 def specStream (s : Plain) (txt : String) : Option (Plain × String) :=
   if txt == "-" then some (s, "-") else
